@@ -31,6 +31,9 @@ type wireSchema struct {
 	// schemas that are given as text (C12: constants; names) rather than as abstract definitions
 	Text string          `json:"text,omitempty"`
 	Nm   json.RawMessage `json:"nm,omitempty"`
+	// C12: a schema with imports - the imported file's text; both texts carry @ROOTPKG@ / @DEPPKG@ placeholders
+	DepText  string `json:"deptext,omitempty"`
+	DepTextC string `json:"deptextc,omitempty"` // for combined mode: without a go_package of its own
 }
 
 type wireCase struct {
@@ -289,7 +292,7 @@ func runWirePart(c *Ctx, work string, sp *WireSpec) (Coverage, int, error) {
 		for m, opts := range masks {
 			run.cases = append(run.cases, &wireCase{Sid: ls.Sid, Vi: 1, Opts: opts, Mask: m, Root: "Root", V: json.RawMessage("[]"), Enc: []int{}})
 		}
-		ncs, ngr, err := genParseCases(c, "Gen_Inject", "NamesWellFormed Export", "  Parts = {\"names\"}\n")
+		ncs, ngr, err := genParseCases(c, "Gen_Inject", "NamesWellFormed ImportUseWellFormed Export", "  Parts = {\"names\", \"impuse\"}\n")
 		if err != nil {
 			return nil, 2, err
 		}
@@ -300,6 +303,27 @@ func runWirePart(c *Ctx, work string, sp *WireSpec) (Coverage, int, error) {
 		if c.Tier == "thorough" {
 			nameMasks = append(nameMasks, []string{"PrivateDefinitions"}, []string{"AlwaysUsePointerReceivers", "GenerateUnsafeMethods"})
 			nameMaskIds = append(nameMaskIds, 2, 9)
+		}
+		// every use of an imported definition, in separate mode (the imported file is generated into its own package) and
+		// in combined mode, without options and with all options that do not make the imported package's names private
+		impOpts := [][]string{{}, {"AlwaysUsePointerReceivers", "GenerateFieldTags", "GenerateUnsafeMethods", "SharedMemoryStrings"}}
+		for i, nc := range ncs {
+			if nc.Part != "impuse" {
+				continue
+			}
+			var x struct {
+				Site string   `json:"site"`
+				Dep  []string `json:"dep"`
+				Depc []string `json:"depc"`
+			}
+			_ = json.Unmarshal(nc.Extra, &x)
+			is := &wireSchema{Sid: 920000 + i, Defs: json.RawMessage("[]"), Tag: x.Site, Ctx: "impuse", Ft: boolT, Text: ast.Render(nc.Tokens, ast.Layouts[0]), DepText: ast.Render(x.Dep, ast.Layouts[0]), DepTextC: ast.Render(x.Depc, ast.Layouts[0])}
+			run.schemas = append(run.schemas, is)
+			bySid[is.Sid] = len(run.schemas) - 1
+			for k, opts := range impOpts {
+				run.cases = append(run.cases, &wireCase{Sid: is.Sid, Vi: 1, Opts: opts, Mask: 40 + k, Root: "Holder", V: json.RawMessage("[]"), Enc: []int{}})
+				run.cases = append(run.cases, &wireCase{Sid: is.Sid, Vi: 1, Opts: append(append([]string{}, opts...), "Combined"), Mask: 50 + k, Root: "Holder", V: json.RawMessage("[]"), Enc: []int{}})
+			}
 		}
 		for i, nc := range ncs {
 			if nc.Part != "names" {
@@ -335,6 +359,29 @@ func runWirePart(c *Ctx, work string, sp *WireSpec) (Coverage, int, error) {
 			}
 			p := &genrun.Plan{Pid: cs.Pid, Sid: cs.Sid, Schema: sch, Opts: cs.Opts}
 			p.Text = run.schemas[bySid[cs.Sid]].Text
+			if dt := run.schemas[bySid[cs.Sid]].DepText; dt != "" {
+				// the go_package of each file is the import path of its package inside the workspace module
+				fill := strings.NewReplacer("@ROOTPKG@", "verifwork/gen/"+cs.Pid, "@DEPPKG@", "verifwork/gen/"+cs.Pid+"d")
+				p.Text = fill.Replace(p.Text)
+				combined := false
+				var depOpts []string
+				for _, o := range cs.Opts {
+					if o == "Combined" {
+						combined = true
+					} else {
+						depOpts = append(depOpts, o)
+					}
+				}
+				p.Files = map[string]string{"dep.bop": fill.Replace(dt)}
+				if combined {
+					p.Files["dep.bop"] = run.schemas[bySid[cs.Sid]].DepTextC
+				}
+				if !combined {
+					dp := &genrun.Plan{Pid: cs.Pid + "d", Sid: cs.Sid, Text: fill.Replace(dt), Opts: depOpts}
+					plans[dp.Pid] = dp
+					planList = append(planList, dp)
+				}
+			}
 			plans[cs.Pid] = p
 			planList = append(planList, p)
 		}
@@ -357,6 +404,12 @@ func runWirePart(c *Ctx, work string, sp *WireSpec) (Coverage, int, error) {
 			}
 		} else if !b.Compiles {
 			uncompilable++
+		}
+	}
+	// the import-use schemas are valid by construction (ImportUseWellFormed): a rejection means the driver is broken
+	for _, p := range planList {
+		if b := ws.Builts[p.Pid]; !b.Accepted && run.schemas[bySid[p.Sid]].Ctx == "impuse" && sp.replaySchema == nil {
+			return nil, 2, infra("the generator rejects a schema with imports (%s): %s%s%s", run.schemas[bySid[p.Sid]].Tag, b.ReadErr, b.GenErr, b.Panic)
 		}
 	}
 	if rejected*4 > len(planList) {
